@@ -2,10 +2,13 @@
 import hashlib, os, re, subprocess
 import runner
 
-TIE = "gen:signflow + corr:server.serveSign"
+TIE = "gen:signflow + gen:auditfields + corr:server.serveSign + corr:cmdline.sign"
 TIE_THEOREM = ("Relic.Props.C06.serveSign_generated / signCmd_generated / appendTo_generated (terms re-extracted from "
                "server/view_sign.go, cmdline/token/signcmd.go, internal/signinit/signinit.go, lib/audit/audit.go) "
-               "and Relic.Driver.C06 vs the real /sign handler")
+               "and Relic.Driver.C06 vs the real /sign handler; Relic.Props.C06.init_generated / serveSign_fields_generated / "
+               "signCmd_fields_generated / signers_generated / auditNew_generated / setCerts_generated / setters_generated (def-use facts "
+               "re-extracted by tools/extractaudit) and Relic.Driver.C06Rec (= Relic.AuditRec.serveSign / signCmd, the model of "
+               "record_names_what_was_used) vs the real handler and the real `relic sign` command")
 RULE = ("T-gen: tools/extractflow re-emits serveSign, signCmd, PublishAudit, AppendTo as Relic.SignFlow.Stmt terms; the checker "
         "`wp` (sound for every program, every sink configuration, every fault script: wp_sound) is run on them by `decide`. "
         "Dynamic: real handler behind httptest TLS with client certificates, fake token (ECDSA + RSA/PGP keys), signers cosign/ps/pgp; "
@@ -14,7 +17,14 @@ RULE = ("T-gen: tools/extractflow re-emits serveSign, signCmd, PublishAudit, App
         "valid/invalid request mixes, sequential (record must be in the file when the response arrives) and concurrent (up to 64 clients, "
         "with pre-existing lines); observed: status per request, audit lines and broker messages parsed as JSON and matched by client.filename, "
         "fields compared with key/sigtype/digest/certificate/client/filename and with the returned signature (cosign certificate+digest, "
-        "pgp issuer+hash). Non-trivial = scenario with at least one request reaching Sign (2xx predicted, or refused because a sink fails).")
+        "pgp issuer+hash). `rec` ops: one request each through the real handler (real file token, client side transform/apply as "
+        "cmdline/remotecmd) or one run of the real standalone command (vh re-executed as relic's main), over 13 signature types "
+        "(pe-coff jar msi ps cat cab apk xap vsix appmanifest pgp deb rpm), 5 key sections (two RSA keys with X.509+PGP certificates, "
+        "a second certificate over the same key, PGP-only, EC) + aliases (also alias of alias, dangling), type alias msi-tar and "
+        "auto-detection, digests, pinned and CA-issued client identities, hostile file names; every identity attribute of the record "
+        "read back from the audit file is diffed against the model's prediction and compared with the signature produced (applied to "
+        "the input and verified by relic's verifier: digest inside, certificate embedded, PGP issuer) and with config.GetKey. "
+        "Non-trivial = scenario with at least one request reaching Sign (2xx predicted, or refused because a sink fails).")
 ASSUMPTIONS = ["O_APPEND write(2) of one buffer to a local file is atomic with respect to other appenders (kernel)",
                "json.Marshal output contains no newline (encoding/json)",
                "names matched by the extractor denote what they denote today: X.Sign = signer entry point, signinit.PublishAudit, "
@@ -24,15 +34,18 @@ ASSUMPTIONS = ["O_APPEND write(2) of one buffer to a local file is atomic with r
                "a failed rw.Write may have emitted part of the body (modelled as a response event)",
                "AMQP: publisher-confirm ack/nack is the broker's delivery verdict; broker internals not modelled",
                "chmod-based read-only files are not exercised (checks run as root); ENOSPC is exercised through /dev/full only"]
-TRUSTED = ["tools/extractflow (go/ast -> Lean term; output is human-readable, every line carries the Go source line)",
+TRUSTED = ["tools/extractaudit (go/ast -> def-use facts as expression texts; what a callee does with a value it receives is not followed "
+           "beyond lib/audit, signinit and the signer's own package: the dynamic comparison with the verified signature covers that)",
+           "tools/extractflow (go/ast -> Lean term; output is human-readable, every line carries the Go source line)",
            "Relic.Model.SignFlow semantics of the primitives (events of Sign/PublishAudit/AppendTo/ResponseWrite)",
            "fake AMQP broker and fake token in harness/c06"]
-UNPROVED = ["record_names_what_was_used_full"]
+UNPROVED = ["marshal_keeps_members_full", "signCmd_record_names_file_full (refuted: signCmd_record_names_file_false)"]
 IMPL_PARALLEL = 8
 IMPL_TIMEOUT = 1200
 EXTRA_MODULES = ()
 
 GEN = os.path.join(runner.LEAN, "Relic", "Generated", "SignFlow.lean")
+GEN2 = os.path.join(runner.LEAN, "Relic", "Generated", "AuditFields.lean")
 _state = {"diag": "", "gen": {}}
 
 
@@ -50,6 +63,22 @@ def generate(ctx):
     src = open(GEN).read()
     info["generated_sha256"] = hashlib.sha256(src.encode()).hexdigest()
     info["generated_defs"] = re.findall(r"^def (\w+)", src, re.M)
+    # def-use facts of the audit record (tools/extractaudit)
+    tool2 = runner.build_tool("extractaudit")
+    old = open(GEN2).read() if os.path.exists(GEN2) else None
+    tmp = GEN2 + ".new"
+    r2 = subprocess.run([tool2, runner.REPO, tmp], stdout=subprocess.PIPE, stderr=subprocess.STDOUT, text=True)
+    if not os.path.exists(tmp):
+        open(tmp, "w").write("/- GENERATED: extractor failed: %s -/\nimport Relic.Model.AuditFields\n" % r2.stdout.replace("-/", "- /")[-400:])
+    new = open(tmp).read()
+    if new != old:          # keep the old file (and lake's trace) when nothing changed
+        os.replace(tmp, GEN2)
+    else:
+        os.remove(tmp)
+    info["auditfields_rc"] = r2.returncode
+    info["auditfields_msg"] = r2.stdout.strip()[-600:]
+    info["auditfields_sha256"] = hashlib.sha256(new.encode()).hexdigest()
+    info["auditfields_defs"] = re.findall(r"^def (\w+)", new, re.M)
     _state["gen"] = info
     ctx["c06_gen"] = info
     return []  # the generated obligations are theorems of Props/C06.lean (`*_generated`, record_is_init_record)
@@ -58,7 +87,9 @@ def generate(ctx):
 def run(ctx):
     cov, findings, known = runner.correspondence("C06", ctx, __import__("props.c06", fromlist=["x"]))
     cov["generated"] = _state["gen"]
-    cov["generated_obligations"] = ["serveSign_generated", "signCmd_generated", "appendTo_generated", "record_is_init_record"]
+    cov["generated_obligations"] = ["serveSign_generated", "signCmd_generated", "appendTo_generated", "record_is_init_record",
+                                    "auditNew_generated", "setCerts_generated", "setters_generated", "init_generated",
+                                    "serveSign_fields_generated", "signCmd_fields_generated", "signers_generated"]
     return cov, findings, known
 
 
@@ -81,12 +112,16 @@ def _diag():
 
 
 def nontrivial(op, mres, tag):
+    if tag.startswith("rec:"):
+        return mres.startswith("ok ")
     m = re.search(r"st=(\S*)", mres)
     return bool(m) and ("2" in m.group(1) or ("sinkfail" in tag and "mixed" not in tag))
 
 
 def branch(op, mres, tag):
     f = op.split()
+    if tag.startswith("rec:"):
+        return "rec " + tag[4:] + ("" if mres.startswith("ok") else " " + mres)
     return "%s file=%s amqp=%s" % (f[1], f[2], f[3]) if len(f) > 3 else "bad"
 
 
@@ -109,7 +144,7 @@ def predicate(op, il, mres, tag):
         return ("Relic.Props.C06.audit_dominates_response", "2xx => exactly one record in every configured sink, present when the response arrives",
                 "miss=%d dup=%d %s" % (n("miss"), n("dup"), det))
     if n("mism") > 0:
-        return ("Relic.Props.C06.record_is_init_record", "record names key, signature type, digest, certificate, client, file name actually used", det)
+        return ("Relic.Props.C06.record_names_what_was_used", "record names key, signature type, digest, certificate, client, file name actually used", det)
     return None
 
 
